@@ -257,12 +257,12 @@ end Tbl
 
 /-- every registration is recorded on both sides, with multiplicity: `x` under `(o, n)` in `a` as
     often as `o` under `(x, n)` in `b` -/
-def Mirror (a b : Tbl) : Prop :=
+def TblMirror (a b : Tbl) : Prop :=
   ∀ o n x, (Tbl.getD a (o, n)).count x = (Tbl.getD b (x, n)).count o
 
-theorem Mirror.symm {a b : Tbl} (h : Mirror a b) : Mirror b a := fun o n x => (h x n o).symm
+theorem TblMirror.symm {a b : Tbl} (h : TblMirror a b) : TblMirror b a := fun o n x => (h x n o).symm
 
-theorem Mirror.mem_iff {a b : Tbl} (h : Mirror a b) (o n x : Nat) :
+theorem TblMirror.mem_iff {a b : Tbl} (h : TblMirror a b) (o n x : Nat) :
     x ∈ Tbl.getD a (o, n) ↔ o ∈ Tbl.getD b (x, n) := by
   rw [← List.count_pos_iff, ← List.count_pos_iff (a := o), h o n x]
 
@@ -280,8 +280,8 @@ theorem count_filter_ne' (l : List Nat) (a b : Nat) :
     simpa using h
 
 /-- `Register`: one more `x` under `(o, n)`, one more `o` under `(x, n)` -/
-theorem Mirror.push {a b : Tbl} (h : Mirror a b) (o n x : Nat) :
-    Mirror (Tbl.push a (o, n) x) (Tbl.push b (x, n) o) := by
+theorem TblMirror.push {a b : Tbl} (h : TblMirror a b) (o n x : Nat) :
+    TblMirror (Tbl.push a (o, n) x) (Tbl.push b (x, n) o) := by
   intro o' n' x'
   simp only [Tbl.getD_push]
   by_cases h1 : (o', n') = (o, n)
@@ -300,9 +300,9 @@ theorem Mirror.push {a b : Tbl} (h : Mirror a b) (o n x : Nat) :
 
 /-- the single-name loop followed by the removal of the key restores the mirror
     (`Unregister(name)` with `a` = notify, `CancelWaiting(0)` with `a` = waitFor) -/
-theorem Mirror.purge_removeKey {a b : Tbl} (h : Mirror a b) (al : Nat → Bool) (o n : Nat) (st : List Nat)
+theorem TblMirror.purge_removeKey {a b : Tbl} (h : TblMirror a b) (al : Nat → Bool) (o n : Nat) (st : List Nat)
     (hal : ∀ l ∈ Tbl.getD a (o, n), al l = true) :
-    Mirror (Tbl.removeKey a (o, n)) (Tbl.purge al b o n (Tbl.getD a (o, n)) st).1 := by
+    TblMirror (Tbl.removeKey a (o, n)) (Tbl.purge al b o n (Tbl.getD a (o, n)) st).1 := by
   intro o' n' x
   rw [Tbl.getD_removeKey, Tbl.purge_getD]
   by_cases h1 : (o', n') = (o, n)
@@ -325,9 +325,9 @@ theorem Mirror.purge_removeKey {a b : Tbl} (h : Mirror a b) (al : Nat → Bool) 
 
 /-- the loop over every name of one owner followed by the removal of the owner restores the mirror
     (`UnregisterAll` with `a` = notify, `CancelWaitingAll` with `a` = waitFor) -/
-theorem Mirror.multiPurge_removeOwner {a b : Tbl} (h : Mirror a b) (ha : Tbl.WF a) (al : Nat → Bool) (o : Nat)
+theorem TblMirror.multiPurge_removeOwner {a b : Tbl} (h : TblMirror a b) (ha : Tbl.WF a) (al : Nat → Bool) (o : Nat)
     (st : List Nat) (hal : ∀ n, ∀ l ∈ Tbl.getD a (o, n), al l = true) :
-    Mirror (Tbl.removeOwner a o) (Tbl.multiPurge al b o (Tbl.keysOf a o) st).1 := by
+    TblMirror (Tbl.removeOwner a o) (Tbl.multiPurge al b o (Tbl.keysOf a o) st).1 := by
   intro o' n' x
   rw [Tbl.getD_removeOwner, Tbl.multiPurge_getD]
   have hex : (∃ e ∈ Tbl.keysOf a o, e.1 = n' ∧ x ∈ e.2) ↔ x ∈ Tbl.getD a (o, n') := by
